@@ -267,6 +267,12 @@ def main():
                run_suite=run_suite, log=log, build_harness=build_harness)
     outcome = plans.execute(prop, plan, ctx)
     if outcome.get('error'):
+        if outcome['error'].startswith('harness failed'):
+            # the harness process itself died: the code under test panicked or aborted outside every case boundary
+            # (every known in-process call is wrapped; on the unchanged tree this does not happen). The tie is broken.
+            log('the harness died while driving the implementation:', outcome['error'][-1500:])
+            return finish(prop, plan, tier, seed, t0, pr, [], [], [], {},
+                          broken='the correspondence harness died while driving the implementation (a panic or abort inside the code under test): ' + outcome['error'][-1500:])
         log('machinery error:', outcome['error'])
         return 2
     disagreements = outcome['disagreements']
